@@ -18,6 +18,22 @@ fn main() {
         }
         return;
     }
+    if args.len() >= 3 && args[1] == "sqlfull" {
+        set_quiet(true);
+        let mut d = Driver::new();
+        for stmt in &args[2..] {
+            match d.q(stmt) {
+                vharness::drv::Outcome::Rows(r) => {
+                    println!("{:?} {:?}", r.names, r.types);
+                    for row in &r.rows {
+                        println!("{}", vharness::val::fmt_row(row));
+                    }
+                }
+                o => println!("{}", o.brief()),
+            }
+        }
+        return;
+    }
     if args.len() >= 3 && args[1] == "sched" {
         // vcheck sched <query> [--setup s]... [--dev N] [--spur N] [--threads N]
         let mut shape = vharness::sched::Shape::new("cli", &[], &args[2]);
@@ -55,6 +71,10 @@ fn main() {
         eprintln!("{} terms", ts.len());
         return;
     }
+    if args.len() >= 2 && args[1].starts_with('C') && std::env::var("VERIF_CHILD").is_err() {
+        // run the check in a guarded child process (hang / abort isolation)
+        std::process::exit(vharness::guard::supervise(&args[1..]));
+    }
     if args.len() >= 2 && args[1].starts_with('C') {
         let mut tier = match std::env::var("VERIF_TIER").ok().as_deref() {
             Some("thorough") => Tier::Thorough,
@@ -73,6 +93,7 @@ fn main() {
             "C02" => vharness::checks::c02::run(tier),
             "C03" => vharness::checks::c03::run(tier),
             "C04" => vharness::checks::c04::run(tier),
+            "C05" => vharness::checks::c05::run(tier),
             other => {
                 eprintln!("unknown check {other}");
                 2
